@@ -32,10 +32,15 @@ CHECKS.update({
              "whole yields the same non-type AST with and without annotations.",
         ref="4/C03"),
     "C15": dict(
-        technique="static analysis: match-arm regions of the opcode interpreter + who-may-cast rule + def-chain (greatest fixed point) inside conversion helpers",
-        text="Decides only the clause 'conversions to 32-bit integers wrap': no saturating float->int cast in any bitwise/shift "
-             "operator arm, and every ToInt32/ToUint32 helper reduces modulo (f64 %) before casting. The defect it found on the "
-             "pinned tree was repaired (fix: commit). Printing/parsing/formatting of numbers are run-time values and not decided.",
+        technique="static analysis: match-arm regions of the opcode interpreter + who-may-cast rule + def-chain (greatest fixed point) inside conversion helpers; value-origin rule for every f64 handed to Display/LowerExp in the number printers (field-sensitive through the format_args! tuple), who-may-format rules (one default printer; no tie-to-even precision formatting); positive-control fixtures",
+        text="Decides six structural clauses, not the printed or parsed values: no saturating float->int cast in any bitwise/shift operator arm, and "
+             "every ToInt32/ToUint32 helper reduces modulo (f64 %) before casting; numeric literals and strings become doubles only through the "
+             "correctly rounded parser; every f64 that the number printers hand to `{}`/`{:e}` is the number itself, never a quotient, power or "
+             "re-parsed mantissa (the shortest-digits contract of the standard library holds for the value it is given); the default conversion has one "
+             "implementation; precision formatting (`{:.N}`, ties to even) is not used where ECMAScript picks the larger candidate (toFixed, "
+             "toPrecision, toExponential do: known findings). The defects found on the pinned tree - saturating casts, 'infe-324' for 5e-324 and wrong "
+             "digits above 1e21, (1e21).toString() without exponent - were reproduced and repaired (fix: commits). Radix output and the constants of the "
+             "notation thresholds are not decided.",
         ref="4/C15"),
 })
 
